@@ -57,6 +57,9 @@ type condGen struct {
 
 func (g *condGen) fp(n *Node) *Node {
 	g.fpN++
+	if g.r.Chance(1, 4) {
+		return Call("sim:fpo", I(g.fpN), n) // the fault point as a host special operator
+	}
 	return Call("sim:fp", I(g.fpN), n)
 }
 
@@ -411,10 +414,14 @@ func (m *cmodel) eval(n *Node, env *menv) (mval, *mraise) {
 			return mval{}, nil
 		}
 		return mval{}, m.interpErr()
-	case "sim:fp":
-		v, r := m.eval(args[1], env)
-		if r != nil {
-			return v, r
+	case "sim:fp", "sim:fpo":
+		var v mval
+		if head == "sim:fp" {
+			var r *mraise
+			v, r = m.eval(args[1], env)
+			if r != nil {
+				return v, r
+			}
 		}
 		id, _ := strconv.Atoi(args[0].Atom)
 		m.fpHits[id]++
@@ -443,6 +450,9 @@ func (m *cmodel) eval(n *Node, env *menv) (mval, *mraise) {
 					return mval{}, m.raise(cond, data)
 				}
 			}
+		}
+		if head == "sim:fpo" {
+			return m.eval(args[1], env)
 		}
 		return v, nil
 	case "sim:probe":
@@ -795,7 +805,7 @@ func condValid(n *Node) bool {
 		return len(args) == 1
 	}
 	switch head {
-	case "sim:fp":
+	case "sim:fp", "sim:fpo":
 		if len(args) != 2 || args[0].IsL {
 			return false
 		}
